@@ -75,7 +75,8 @@ class Explorer(object):
             if self.runs >= self.limit:
                 self.complete = False
                 return
-            if self.sample and self.rnd:
+            if self.sample and self.rnd and self.runs % 2 == 1:
+                # races of three: every other run a random prefix, the others fewest preemptions first
                 prefix = work.pop(self.rnd.randrange(len(work)))
             else:
                 # fewest preemptions first (most races need one or two), then shortest
@@ -288,6 +289,8 @@ def corpus(kind, s, tier, rnd):
                         continue
                     out.append(('%s|%s' % (a, b), [dict(vs[a]), dict(vs[b])]))
         out.append(('put_null|put_null_b|put_gen0', [dict(new_variants[k]) for k in ('put_null', 'put_null_b', 'put_gen0')]))
+        # one of three fails for its own reason and removes the consumer it created
+        out.append(('put_null|put_null_toobig|put_null_b', [dict(new_variants[k]) for k in ('put_null', 'put_null_toobig', 'put_null_b')]))
         out.append(('put_cur|put_cur_b|put_cur_empty', [dict(old_variants[k]) for k in ('put_cur', 'put_cur_b', 'put_cur_empty')]))
     elif kind == 'C19':
         # creations of custom names racing: identifiers stay unique, an existing name is never duplicated
